@@ -35,6 +35,10 @@ Definition run_case (pn : N) (dom : string) (args : list arg) : list string :=
   else if dom =? "gettag" then
     match args with [AN sel; AB bs] => run_gettag p sel bs | _ => bad end
   else if dom =? "mbinull" then run_mbinull p
+  else if dom =? "mbimis" then
+    match args with [AN a; AB bs] => run_mbimis p a bs | _ => bad end
+  else if dom =? "hdrmis" then
+    match args with [AN a; AB bs] => run_hdrmis p a bs | _ => bad end
   else if dom =? "iters" then
     match args with [AB bs; AL ops] => run_iters p bs ops | _ => bad end
   else if dom =? "hiters" then
